@@ -15,6 +15,10 @@ NOT_APPLICABLE = {
 
 # property -> (engine, category, technique, text, note, design_ref)
 CLAIMED = {
+    'C14': ('shape', 'other', 'symbolic extent/index abstract interpretation (path-sensitive, polynomial shape atoms, row/slot segment heap model, three-valued obligations with shape witnesses) applied to every public container operation from an arbitrary invariant-satisfying state, plus post-invariant, lifetime, deep-copy and slot typestate rules',
+            'Discharges the history quantifier by induction: each of the ~90 container operations, from ANY argument state satisfying the container invariants, makes only in-extent accesses, uses/frees nothing after release, copies deeply and re-establishes the invariants with the updated counts; out-of-range index arguments reach an error path before any subscript. Cell values (old cells preserved, new cells zero), allocator failure and string contents are NOT decided.',
+            'Trusted: clang AST; container invariants assumed at entry and re-proved at exit; distinct parameters do not alias; LP64. UNDECIDED obligations are counted in the evidence and never alarm.',
+            'DESIGN.md 2/E1, 3/C14, Appendix C'),
     'C19': ('dims', 'other', 'units-of-measure inference: every floating expression of the spline/area code typed X^a Y^b, homogeneity constraints solved as a linear system over Q, first inconsistent expression reported',
             'Decides only the unit-independence clause: coefficient formulas, piece lookup and trapezoid accumulation are dimensionally homogeneous (inferred S columns X, Y, Y/X, Y/X^2, Y/X^3; area X*Y), so no absolute tolerance or mismatched power of the spacing can make the result depend on the units of x. Interpolation, smoothness, exactness on lines, additivity and the simplex minimiser are NOT decided.',
             'Trusted: clang AST; seeds (column 0 = X, column 1 = Y, abscissa vector X, prediction Y); literal 0 polymorphic, other literals dimensionless under +,-,compare; sentinel tests against MISSING exempt.',
